@@ -253,6 +253,19 @@ impl Ctx<'_> {
             ("mk := () -> () -> int { return () -> int { return 1 } }; a := mk(); b := mk(); a == b", false),
             ("mk := () -> () -> int { return () -> int { return 1 } }; a := mk(); b := a; a == b", true),
             ("it := [1, 2]~; f := (j: any) -> bool { return j == it }; f(it)", true),
+            // deep nesting: separately built values of equal content are equal at every depth
+            ("mk := (n: int, leaf: int) -> any { c := mut any [leaf]; i := mut 0; while *i < n { c = [*c]; i += 1; } return *c }; mk(127, 1) == mk(127, 1)", true),
+            ("mk := (n: int, leaf: int) -> any { c := mut any [leaf]; i := mut 0; while *i < n { c = [*c]; i += 1; } return *c }; mk(128, 1) == mk(128, 1)", true),
+            ("mk := (n: int, leaf: int) -> any { c := mut any [leaf]; i := mut 0; while *i < n { c = [*c]; i += 1; } return *c }; mk(129, 1) == mk(129, 1)", true),
+            ("mk := (n: int, leaf: int) -> any { c := mut any [leaf]; i := mut 0; while *i < n { c = [*c]; i += 1; } return *c }; mk(400, 1) == mk(400, 1)", true),
+            ("mk := (n: int, leaf: int) -> any { c := mut any [leaf]; i := mut 0; while *i < n { c = [*c]; i += 1; } return *c }; mk(400, 1) == mk(400, 2)", false),
+            ("mk := (n: int, leaf: int) -> any { c := mut any [leaf]; i := mut 0; while *i < n { c = [*c]; i += 1; } return *c }; mk(400, 1) == mk(401, 1)", false),
+            ("mk := (n: int, leaf: int) -> any { c := mut any (leaf, 0); i := mut 0; while *i < n { c = (*c, *i); i += 1; } return *c }; mk(300, 1) == mk(300, 1)", true),
+            ("mk := (n: int, leaf: int) -> any { c := mut any (leaf, 0); i := mut 0; while *i < n { c = (*c, *i); i += 1; } return *c }; mk(300, 1) == mk(300, 2)", false),
+            ("mk := (n: int, leaf: int) -> any { c := mut any struct{a := leaf}; i := mut 0; while *i < n { c = struct{a := *c}; i += 1; } return *c }; mk(300, 1) == mk(300, 1)", true),
+            ("mk := (n: int, leaf: int) -> any { c := mut any struct{a := leaf}; i := mut 0; while *i < n { c = struct{a := *c}; i += 1; } return *c }; mk(300, 1) == mk(300, 2)", false),
+            ("mk := (n: int, leaf: int) -> any { c := mut any [leaf]; i := mut 0; while *i < n { c = [*c]; i += 1; } return *c }; a := mk(300, 1); b := mk(300, 1); match a { b => true, => false, }", true),
+            ("mk := (n: int, leaf: int) -> any { c := mut any [leaf]; i := mut 0; while *i < n { c = [*c]; i += 1; } return *c }; ([mk(300, 1)] + []) == [mk(300, 1)]", true),
             // arrays holding NaN: no array that contains it equals anything, itself and its aliases included
             ("n := 0.0 / 0.0; a := [1.5, n]; a == a", false),
             ("n := 0.0 / 0.0; a := [1.5, n]; b := a; a == b", false),
